@@ -110,3 +110,63 @@ Corollary quintic_exact_after_any_history (pre : list (call (T := R))) c0 c1 c2 
   option_map val (List.nth_error (run_seq ROps tt (pre ++ [CInt (p5 c0 c1 c2 c3 c4 c5) a b eps depth])) (length pre))
   = Some (RInt (p5 c0 c1 c2 c3 c4 c5) a b).
 Proof. rewrite history_free. cbn [option_map run_call]. rewrite quintic_exact. reflexivity. Qed.
+
+(** ** Re-entrant integrands: an integrand that itself calls the integrator (any of the four entry points, with
+    integrand, limits, epsilon, depth depending on the outer abscissa) is an ordinary integrand for the outer call,
+    and each inner call is the call made alone. *)
+Definition call_limits (c : call (T := R)) : R * R :=
+  match c with CInt _ a b _ _ => (a, b) | CDef _ a b _ => (a, b) | CMeth _ a b => (a, b) | CFind _ a b _ => (a, b) end.
+
+Definition call_bound (c : call (T := R)) : nat :=
+  match c with
+  | CInt _ _ _ _ depth => 2 ^ (Z.to_nat depth + 2) + 1
+  | CDef _ _ _ _ => 2 ^ 22 + 1
+  | CMeth _ _ _ => 2 ^ 22 + 4
+  | CFind _ _ _ _ => 3
+  end.
+
+Theorem run_call_count (c : call (T := R)) : (length (trc (run_call ROps c)) <= call_bound c)%nat.
+Proof.
+  destruct c as [f a b eps d|f a b eps|f a b|f a b p]; cbn [run_call call_bound].
+  - apply eval_count.
+  - rewrite default_depth. pose proof (eval_count f a b eps 20) as P.
+    change (Z.to_nat 20 + 2)%nat with 22%nat in P. exact P.
+  - apply method_count.
+  - cbn. lia.
+Qed.
+
+Theorem run_call_inside (c : call (T := R)) :
+  List.Forall (fun x => Rmin (fst (call_limits c)) (snd (call_limits c)) <= x <= Rmax (fst (call_limits c)) (snd (call_limits c)))
+    (trc (run_call ROps c)).
+Proof.
+  destruct c as [f a b eps d|f a b eps|f a b|f a b p]; cbn [run_call call_limits fst snd].
+  - apply eval_points_inside.
+  - rewrite default_depth. apply eval_points_inside.
+  - apply method_points_inside.
+  - unfold trc. cbn [snd]. change (nadd ROps a b) with (a + b). change (ndiv ROps (a + b) (nofZ ROps 2)) with ((a + b) / IZR 2).
+    unfold Rmin, Rmax. destruct (Rle_dec a b); repeat (apply List.Forall_cons; [lra|]); apply List.Forall_nil.
+Qed.
+
+Lemma reentrant_value (mk : R -> call (T := R)) (E : R -> R -> R) x :
+  reentrant ROps mk E x = E x (val (run_call ROps (mk x))).
+Proof. reflexivity. Qed.
+
+Theorem reentrant_outer (mk : R -> call (T := R)) (E : R -> R -> R) a b eps depth :
+  (length (trc (integrate ROps (reentrant ROps mk E) a b eps depth)) <= 2 ^ (Z.to_nat depth + 2) + 1)%nat /\
+  List.Forall (fun x => Rmin a b <= x <= Rmax a b) (trc (integrate ROps (reentrant ROps mk E) a b eps depth)) /\
+  val (integrate ROps (reentrant ROps mk E) b a eps depth) = - val (integrate ROps (reentrant ROps mk E) a b eps depth) /\
+  integrate ROps (reentrant ROps mk E) a b (- eps) depth = integrate ROps (reentrant ROps mk E) a b eps depth.
+Proof.
+  repeat split.
+  - apply eval_count.
+  - apply eval_points_inside.
+  - apply swap_negates.
+  - apply eps_sign_irrelevant.
+Qed.
+
+(** a nested integral of a polynomial: the inner integral of c0(x) + c1(x) t + ... + c5(x) t^5 over [lo x, hi x] is
+    exact at every outer abscissa, whatever the inner epsilon and depth *)
+Theorem reentrant_inner_quintic_exact (c0 c1 c2 c3 c4 c5 lo hi ieps : R -> R) (idepth : R -> Z) (E : R -> R -> R) x :
+  reentrant ROps (fun x => CInt (p5 (c0 x) (c1 x) (c2 x) (c3 x) (c4 x) (c5 x)) (lo x) (hi x) (ieps x) (idepth x)) E x
+  = E x (RInt (p5 (c0 x) (c1 x) (c2 x) (c3 x) (c4 x) (c5 x)) (lo x) (hi x)).
+Proof. rewrite reentrant_value. cbn [run_call]. rewrite quintic_exact. reflexivity. Qed.
